@@ -182,5 +182,20 @@ pub fn run(r: &mut Rep, a: &Args) {
             n += 1;
         }
     }
+    // every RFLAGS image bit on its own and every all-but-one image, every 16-bit selector pattern with a single bit, irregular
+    // images: the frame is transferred verbatim whatever it encodes
+    let mut images: Vec<u64> = vec![0, u64::MAX, 0x2, 0x0000_0000_0024_4ed7, 0x9e37_79b9_7f4a_7c15, 0x0000_0000_0000_4202, 0x0000_0000_0001_7202];
+    for b in 0..64 {
+        images.push(1u64 << b);
+        images.push(!(1u64 << b));
+        images.push(0x202 | 1u64 << b);
+    }
+    for (k, &fl) in images.iter().enumerate() {
+        let rip = addrs[k % addrs.len()];
+        let rsp = addrs[(k * 7 + 3) % addrs.len()];
+        let (cs, ss) = ((1u16 << (k % 16)) | 3, !(1u16 << ((k + 5) % 16)));
+        iretq_case(r, rip, cs, fl, rsp, ss);
+        n += 1;
+    }
     r.note(&format!("iretq on {} frame values (canonical boundary RIP x RSP, 6 RFLAGS patterns, 4 selector pairs) with the final iretq emulated and its popped frame compared", n));
 }
